@@ -9,7 +9,7 @@ from ..common import (Outcome, Violation, exc_violation, guarded,
 
 CLF_KEYS = ["pwc", "pwc_default", "gnb", "lr", "tree_clf", "mmc"]
 ENCS = ["float10_nan", "int_m1", "int_99", "obj_none", "str_zz", "str_empty"]
-CLF_ENCS = ENCS + ["objnum_none", "str_long"]
+CLF_ENCS = ENCS + ["objnum_none", "str_long", "str_grow"]
 STREAM_NAMES = ["FixedUncertainty", "VariableUncertainty", "Split",
                 "RandomVariableUncertainty", "StreamProbabilisticAL",
                 "StreamDensityBasedAL", "CognitiveDualQueryStrategyFixUn",
